@@ -43,6 +43,9 @@ fn check_value(v: u32, dribble: bool) -> Result<(), String> {
     if u32::from(vi) != v {
         return Err(format!("u32::from(VarInt::try_from({v})) = {}", u32::from(vi)));
     }
+    if v % 4099 == 0 && (vi.to_string() != v.to_string() || usize::try_from(vi).ok() != Some(v as usize)) {
+        return Err(format!("Display / usize conversion of VarInt({v}) wrong"));
+    }
     // encode into a sentinel-filled bounded buffer
     let mut buf = [0xEEu8; 8];
     let n = vi.write(&mut buf[..]).map_err(|e| format!("write({v}) failed: {e}"))?;
